@@ -20,8 +20,28 @@ def run(ctx):
     denied = ctx.cov.get("evaluations", 0)
     if ctx.only is None:
         fails += c04.binding_mbt(ctx, "TStateView_Gen_masks.cfg", ctx.pick(300, 3000), "masks")
+    # transaction level: union of the actions' and the sponsor's declarations, keys differing only in their size suffix,
+    # "an undeclared access fails the action, which is reverted" - real Processor.Execute validated against Block.tla
+    _s2 = importlib.util.spec_from_file_location("_chain", os.path.join(os.path.dirname(__file__), "_chain.py"))
+    ch = importlib.util.module_from_spec(_s2)
+    _s2.loader.exec_module(ch)
+    for f in vlib.scenario_files(ctx, "sc"):
+        os.remove(f)
+    files = ch.record(ctx, "^TestVerifChainExec$", "c03", ctx.pick(40, 600))
+    nsuffix = nbal = 0
+    for f in files:
+        for l in vlib.read_ndjson(f):
+            if l.get("ev") == "block" and l["rep"] == 0:
+                for t in l["txs"]:
+                    nsuffix += any("#" in k for k in t["decl"])
+                    nbal += any(k.startswith("bal:") for k in t["decl"])
+    ctx.add("txs_declaring_a_size_suffix_variant", nsuffix)
+    ctx.add("txs_declaring_a_balance_key_in_an_action", nbal)
+    ch.stats(ctx, files)
+    cf = ch.validate(ctx, files, "c05-tx")
     vlib.report_failures(ctx, fails, c04.describe)
+    vlib.report_failures(ctx, cf, ch.describe)
     ctx.cov["rule"] = ("tv: as C04 but every view draws a random permission subset per key (all 8 masks incl. write "
                        "without read); refused ops must leave every readable key and the block map unchanged and "
                        "allowed ops must succeed; mbt: KV walks with all 8 masks on k1")
-    ctx.assumptions += ["transaction-level union of action and sponsor keys is bound by the chain driver (C01/C03)"]
+    
